@@ -72,6 +72,9 @@ Clauses(obs, m, st) ==
               THEN {"relevant_only"} ELSE {})
         \cup (IF ~obs.stable THEN {"deterministic"} ELSE {})
         \cup (IF ~obs.facade THEN {"facade_agrees"} ELSE {})
+        \* the plan obtained through a parsed configuration (contents + override blocks, effective settings of the other
+        \* formats asked first) is the plan of the list itself
+        \cup (IF obs.viaconfig = "differs" THEN {"config_route_agrees"} ELSE {})
       doc ==
         (IF both /\ \E i \in common : plan[i].owner # m[expOf(plan[i].dst)].owner THEN {"owner"} ELSE {})
         \cup (IF both /\ \E i \in common : plan[i].group # m[expOf(plan[i].dst)].group THEN {"group"} ELSE {})
